@@ -36,6 +36,37 @@ class Run:
         self.array = None
 
 
+_TORN = {}
+
+
+def _torn_classes(repo):
+    """class (with bases) of what caching.decode raises on a torn index, by evaluating it on a cut document"""
+    key = id(repo)
+    if key not in _TORN:
+        _TORN[key] = None
+        try:
+            import json
+            cach = repo.module(SI + ".caching")
+            I = Interp(repo)
+            sc = I.module_scope(cach)
+
+            def loads(I_, a, kw):
+                try:
+                    json.loads(a[0].v)
+                except json.JSONDecodeError as e:
+                    raise _Raise(f"json.JSONDecodeError: {e}", ["JSONDecodeError", "ValueError", "Exception", "BaseException", "object"])
+                return DictS()
+            sc.vars["json"] = Obj("json", OrderedDict(loads=Fn("py", impl=loads, name="json.loads"), JSONDecodeError=Fn("lib", name="json.JSONDecodeError")))
+            try:
+                I.call(I.lookup("decode", sc), [Const('{"__type__": "gro')], OrderedDict(records_per_chunk=Const(7)))
+            except _Raise as e:
+                if e.classes and "CachingError" in e.classes:
+                    _TORN[key] = list(e.classes)
+        except (ShapeError, AnalysisError, RecursionError):
+            pass
+    return _TORN[key]
+
+
 def run_open_image(repo, use_cache, create_cache, cache, rpc, create_fails=False):
     R = Run()
     I = Interp(repo)
@@ -50,9 +81,13 @@ def run_open_image(repo, use_cache, create_cache, cache, rpc, create_fails=False
         R.calls.append(("read_cache", {k: (v.v if isinstance(v, Const) else v) for k, v in args.items()}))
         if cache == "hit":
             return R.cached
-        ex = _Raise("raise CachingError('no cache found')" if cache == "miss" else "raise CachingError('invalid cache') from JSONDecodeError", CACHING_ERROR)
+        classes = CACHING_ERROR
+        if cache == "torn":
+            # the class the package's own decode raises for a torn index (a subclass of CachingError, possibly)
+            classes = _torn_classes(repo) or CACHING_ERROR
+        ex = _Raise("raise CachingError('no cache found')" if cache == "miss" else f"raise {classes[0]}('invalid cache') from JSONDecodeError", classes)
         cause = Obj("Exception", OrderedDict(args=TupS([Const("Expecting value")]), classes=Const(("JSONDecodeError", "ValueError", "Exception", "BaseException", "object")))) if cache == "torn" else Const(None)
-        ex.value = Obj("Exception", OrderedDict(args=TupS([Const("cache")]), classes=Const(tuple(CACHING_ERROR)), __cause__=cause, __context__=cause))
+        ex.value = Obj("Exception", OrderedDict(args=TupS([Const("cache")]), classes=Const(tuple(classes)), __cause__=cause, __context__=cause))
         raise ex
 
     def create_cache_stub(I_, a, kw):
@@ -64,7 +99,35 @@ def run_open_image(repo, use_cache, create_cache, cache, rpc, create_fails=False
         if create_fails:
             raise _Raise("OSError: [Errno 28] No space left on device", ["OSError", "Exception", "BaseException", "object"])
         return Const(None)
-    sc.vars["caching"] = Obj("caching", OrderedDict(read_cache=Fn("py", impl=read_cache, name="read_cache"), create_cache=Fn("py", impl=create_cache_stub, name="create_cache")))
+    cobj = Obj("caching", OrderedDict(read_cache=Fn("py", impl=read_cache, name="read_cache"), create_cache=Fn("py", impl=create_cache_stub, name="create_cache")))
+    # everything else the package's caching module offers is the real thing, on the model of the two cache places (vlib/cachefs.py):
+    # neither place holds an index file - except for the state of the torn cache, where the user cache dir has the torn file
+    try:
+        from .cachefs import World
+        cmod = repo.module(SI + ".caching")
+        W = World(repo)
+        pm = repo.module(SI + ".caching.path")
+        I.module_scope(pm).vars["cache_root"] = W.path(("CACHE",))
+        W.dirs.add(("CACHE",))
+        for nm in list(cmod.funcs) + list(cmod.imports):
+            if "." in nm or nm in cobj.fields:
+                continue
+            try:
+                cobj.fields[nm] = I.resolve_global(cmod, nm)
+            except ShapeError:
+                pass
+        # in the states with a cache (hit / torn) the index file lies next to the image: the mapper has the key `<image>.index`, the
+        # file system has the file under the product root (a path relative to the root is not a file for the file system)
+        has = cache in ("hit", "torn")
+        keyname = PATH + ".index"
+        full = {"memory://product/" + keyname, "/product/" + keyname, "product/" + keyname}
+        isfile = lambda I_, a, kw: Const(bool(has and a and isinstance(a[0], Const) and a[0].v in full))
+        mapper.fields["__contains__"] = Fn("py", impl=lambda I_, a, kw: Const(bool(has and a and isinstance(a[0], Const) and a[0].v == keyname)), name="__contains__")
+        mapper.fields["fs"].fields["isfile"] = Fn("py", impl=isfile, name="isfile")
+        mapper.fields["fs"].fields["exists"] = Fn("py", impl=isfile, name="exists")
+    except AnalysisError:
+        pass
+    sc.vars["caching"] = cobj
 
     def dirfs(I_, a, kw):
         args = dict(zip(["path", "fs"], a))
